@@ -366,9 +366,40 @@ def r8(ctx):
             ctx.check(isinstance(rv, tuple) and vtext(rv[1]) == "ARGS", key, f"'(' directly after the name must give a function-like macro with the parsed parameter list: {p.describe()}", md.loc())
     # variadic naming in MacroFunction.__init__
     init = repo.cls("preprocessor", "MacroFunction").find_method("__init__")
-    txt = u(init.node)
-    ok = "self.args[-1] = '__VA_ARGS__'" in txt and "self.args[-1] = self.args[-1][:-3]" in txt and "self.variadic = self.args[-1].endswith('...')" in txt
-    ctx.soft(ok, "preprocessor:MacroFunction.__init__:variadic-naming", "`...` must be named __VA_ARGS__, `name...` must be named `name`", init.loc())
+    # table specification: A = the parameter names; variadic <=> A non-empty and A[-1] ends in '...';
+    #   A[-1] == '...' -> renamed '__VA_ARGS__';  'name...' -> renamed A[-1][:-3];  otherwise nothing is renamed
+    from ..spec import tab, vt
+
+    n_v = 0
+    for p in tab(init, unroll=1):
+        at = {vt(k): v for k, v in p.atoms.items()}
+        stores = [(vt(e[1]), vt(e[2])) for e in p.effects if e[0] == "store"]
+        A = next((v for t, v in stores if t == "self.args"), None)
+        if A is None:
+            raise AnalysisError(f"MacroFunction.__init__: store to self.args not found: {p.describe()[:160]}")
+        nonempty = at.get(A)
+        ends = at.get(f"{A}[-1].endswith('...')")
+        bare = next((v for k, v in at.items() if k in (f"'...' Eq {A}[-1]", f"{A}[-1] Eq '...'")), None)
+        ren = [(t, v) for t, v in stores if t in (f"{A}[-1]", "self.args[-1]")]
+        var = [v for t, v in stores if t == "self.variadic"]
+        key = f"preprocessor:MacroFunction.__init__:variadic-naming:nonempty={nonempty},dots={ends},bare={bare}"
+        if nonempty is None:
+            raise AnalysisError(f"MacroFunction.__init__: emptiness of the parameter list is not examined: {p.describe()[:160]}")
+        is_var = bool(nonempty and ends)
+        okv = len(var) == 1 and var[-1] in (("True", f"{A}[-1].endswith('...')") if is_var else ("False", f"{A}[-1].endswith('...')"))
+        if not is_var:
+            ok = okv and not ren
+        elif bare is None:
+            ok = False
+        elif bare:
+            n_v += 1
+            ok = okv and [v.strip("'\"") for _, v in ren] == ["__VA_ARGS__"]
+        else:
+            n_v += 1
+            ok = okv and [v for _, v in ren] == [f"{A}[-1][:-3]"]
+        ctx.check(ok, key, f"`...` must be named __VA_ARGS__, `name...` must be named `name`, anything else stays as written; self.variadic must say which: renames {ren}, variadic {var}", init.loc())
+    if n_v < 2:
+        raise AnalysisError("MacroFunction.__init__: variadic naming idiom not recognised")
     ctx.floor(4)
 
 
